@@ -4,6 +4,7 @@ import (
 	"context"
 	"errors"
 	"net/http"
+	"time"
 )
 
 // C16 — Session and Server keep the HTTP side of the protocol.
@@ -126,11 +127,16 @@ func vhC16Messages() []*Message {
 	m2 := &Message{ID: ID("7")}
 	m2.AppendData("b\nc")
 	m3 := &Message{} // nothing to write
-	return []*Message{m1, m2, m3}
+	m4 := &Message{Retry: 1500 * time.Millisecond}
+	m4.AppendData("r")
+	return []*Message{m1, m2, m3, m4}
 }
 
 func vhC16Session() {
 	rec := &vhRec{h: http.Header{}, failAt: verifNondetInt("failat", -1, 12)}
+	if verifChoose("preset-content-type", 2) == 1 {
+		rec.h["Content-Type"] = []string{"application/json"} // a middleware default
+	}
 	w, canFlush, flushCanFail := vhMakeWriter(rec)
 	req := &http.Request{Header: http.Header{}}
 	sess, err := Upgrade(w, req)
